@@ -1,6 +1,6 @@
 /-
   What `Wait` returns (C07, C08): every entry of the returned error is a real failure of a job
-  that ran, or the context's error after a cancellation; nil (fail-fast) means every submitted
+  that ran, or a context's error after a cancellation of that context (Wait's, or a skipped job's own); nil (fail-fast) means every submitted
   job ended without error.
 -/
 import CffVerif.Sched.ErrInv
@@ -9,20 +9,23 @@ namespace Sched
 
 open Loop
 
-/-- An error entry that is backed by the log. -/
-def RealEntry (x : Res) (log : List Ev) : Prop :=
-  (x = .ctxErr ∧ Ev.cancelled ∈ log) ∨
+/-- An error entry that is backed by the log.  A `ctxErr` entry is backed by a cancellation of
+    `Wait`'s own context, or by a job that was skipped because its own context was cancelled. -/
+def RealEntry (c : Cfg) (x : Res) (log : List Ev) : Prop :=
+  (x = .ctxErr ∧ (Ev.cancelled c.waitCtx ∈ log ∨
+      ∃ j, Ev.skipped j .ctx ∈ log ∧ Ev.cancelled (c.ctxOfJob j) ∈ log)) ∨
   (∃ j e, x = .fail e ∧ Ev.ended j (.fail e) ∈ log) ∨
   (x = .exitErr ∧ ∃ j, Ev.ended j .goexit ∈ log)
 
-theorem RealEntry.mono {x : Res} {log es : List Ev} (h : RealEntry x log) : RealEntry x (log ++ es) := by
-  rcases h with ⟨h1, h2⟩ | ⟨j, e, h1, h2⟩ | ⟨h1, j, h2⟩
-  · exact Or.inl ⟨h1, List.mem_append_left _ h2⟩
+theorem RealEntry.mono {c : Cfg} {x : Res} {log es : List Ev} (h : RealEntry c x log) : RealEntry c x (log ++ es) := by
+  rcases h with ⟨h1, h2 | ⟨j, h2, h3⟩⟩ | ⟨j, e, h1, h2⟩ | ⟨h1, j, h2⟩
+  · exact Or.inl ⟨h1, Or.inl (List.mem_append_left _ h2)⟩
+  · exact Or.inl ⟨h1, Or.inr ⟨j, List.mem_append_left _ h2, List.mem_append_left _ h3⟩⟩
   · exact Or.inr (Or.inl ⟨j, e, h1, List.mem_append_left _ h2⟩)
   · exact Or.inr (Or.inr ⟨h1, j, List.mem_append_left _ h2⟩)
 
 structure Inv8 (c : Cfg) (s : State) : Prop where
-  retReal : ∀ r, Ev.waitReturned r ∈ s.log → ∀ x ∈ r, RealEntry x s.log
+  retReal : ∀ r, Ev.waitReturned r ∈ s.log → ∀ x ∈ r, RealEntry c x s.log
   retFfLen : c.coe = false → ∀ r, Ev.waitReturned r ∈ s.log → r.length ≤ 1
   nilComplete : c.coe = false → Ev.waitReturned [] ∈ s.log → ∀ j, j < s.caller.sent → Ev.ended j .ok ∈ s.log
   noInvalidFf : c.coe = false → ∀ j, Ev.skipped j .invalid ∉ s.log
@@ -82,13 +85,13 @@ theorem reach2_run {c : Cfg} (hw : c.wiring = Wiring.std) (hwf : WfCfg c) (acts 
 
 /-- A seen failing, non-sentinel result is a real entry. -/
 theorem realEntry_of_seen {c : Cfg} {s : State} (h6 : Inv6 c s) {j : Nat} {x : Res}
-    (hm : Ev.resultSeen j x ∈ s.log) (he : x.isErr = true) (hni : x ≠ .invalid) : RealEntry x s.log := by
+    (hm : Ev.resultSeen j x ∈ s.log) (he : x.isErr = true) (hni : x ≠ .invalid) : RealEntry c x s.log := by
   rcases (h6.seenProd j x hm).1 with ⟨o, h1, h2⟩ | ⟨h1, h2⟩ | ⟨h1, _⟩
   · cases o with
     | ok => subst h1; simp [outcomeRes, Res.isErr] at he
     | fail e => subst h1; exact Or.inr (Or.inl ⟨j, e, rfl, h2⟩)
     | goexit => subst h1; exact Or.inr (Or.inr ⟨rfl, j, h2⟩)
-  · subst h1; exact Or.inl ⟨rfl, h6.skipCtx j h2⟩
+  · subst h1; exact Or.inl ⟨rfl, Or.inr ⟨j, h2, h6.skipCtx j h2⟩⟩
   · exact absurd h1 hni
 
 theorem mem_filterMap_errEntry {log : List Ev} {x : Res} (h : x ∈ log.filterMap Ev.errEntry) :
@@ -101,11 +104,11 @@ theorem mem_filterMap_errEntry {log : List Ev} {x : Res} (h : x ∈ log.filterMa
 
 /-- The value `Wait` returns through its finished arm. -/
 theorem retVal_real {c : Cfg} {s : State} (R : Reach2 c s) (h8 : Inv8 c s) (hp : s.loop.phase = .exited) :
-    (∀ x ∈ retVal s, RealEntry x s.log) ∧ (c.coe = false → (retVal s).length ≤ 1) ∧
-    (c.coe = false → retVal s = [] → ∀ j, j < s.caller.sent → Ev.ended j .ok ∈ s.log) := by
+    (∀ x ∈ retVal c s, RealEntry c x s.log) ∧ (c.coe = false → (retVal c s).length ≤ 1) ∧
+    (c.coe = false → retVal c s = [] → ∀ j, j < s.caller.sent → Ev.ended j .ok ∈ s.log) := by
   have h6 := R.i6
   have h7 := R.i7
-  have entries : ∀ x ∈ s.loop.err, RealEntry x s.log := by
+  have entries : ∀ x ∈ s.loop.err, RealEntry c x s.log := by
     intro x hx
     cases hc : c.coe with
     | true =>
@@ -127,7 +130,7 @@ theorem retVal_real {c : Cfg} {s : State} (R : Reach2 c s) (h8 : Inv8 c s) (hp :
     unfold retVal at hx
     split at hx
     · split at hx
-      · next hcan => simp at hx; subst hx; exact Or.inl ⟨rfl, h6.cancelLog hcan⟩
+      · next hcan => simp at hx; subst hx; exact Or.inl ⟨rfl, Or.inl (h6.cancelLog _ hcan)⟩
       · simp at hx
     · exact entries x hx
   · intro hc
@@ -207,7 +210,7 @@ theorem inv8_step {c : Cfg} (hw : c.wiring = Wiring.std) (hwf : WfCfg c) {s s' :
       rcases List.mem_append.mp hm with hm | hm
       · exact (g1 r hm x hx).mono
       · simp at hm; subst hm; simp at hx; subst hx
-        exact Or.inl ⟨rfl, List.mem_append_left _ (R.i6.cancelLog hcan)⟩
+        exact Or.inl ⟨rfl, Or.inl (List.mem_append_left _ (R.i6.cancelLog _ hcan))⟩
     · intro hc r hm; simp only [addLog_log] at hm
       rcases List.mem_append.mp hm with hm | hm
       · exact g2 hc r hm
@@ -325,10 +328,10 @@ theorem inv8_step {c : Cfg} (hw : c.wiring = Wiring.std) (hwf : WfCfg c) {s s' :
     · exact inv8_frame (es := [Ev.started j]) h (fun _ hk => hk) rfl rfl rfl (by simp [Ev.isRet, Ev.isSkipInvalid])
   | workerEnd w o cancel =>
     obtain ⟨j, _, rfl⟩ := inv_workerEnd hs
-    have hab : (afterBody s j o cancel).loop = s.loop ∧ (afterBody s j o cancel).caller = s.caller ∧
-        ∃ es, (afterBody s j o cancel).log = s.log ++ es ∧ ∀ e ∈ es, e.isRet = false ∧ e.isSkipInvalid = false := by
+    have hab : (afterBody c s j o cancel).loop = s.loop ∧ (afterBody c s j o cancel).caller = s.caller ∧
+        ∃ es, (afterBody c s j o cancel).log = s.log ++ es ∧ ∀ e ∈ es, e.isRet = false ∧ e.isSkipInvalid = false := by
       unfold afterBody; split
-      · exact ⟨rfl, rfl, [Ev.ended j o, Ev.cancelled], by simp, by simp [Ev.isRet, Ev.isSkipInvalid]⟩
+      · exact ⟨rfl, rfl, [Ev.ended j o, Ev.cancelled (c.ctxOfJob j)], by simp, by simp [Ev.isRet, Ev.isSkipInvalid]⟩
       · exact ⟨rfl, rfl, [Ev.ended j o], by simp, by simp [Ev.isRet, Ev.isSkipInvalid]⟩
     obtain ⟨hl, hcl, es, hlog, hes⟩ := hab
     exact inv8_frame (es := es) h (by intro k hk; simpa [hl] using hk) (by simp [hcl]) (by simp [hcl]) (by simp [hlog]) hes
@@ -342,7 +345,7 @@ theorem inv8_step {c : Cfg} (hw : c.wiring = Wiring.std) (hwf : WfCfg c) {s s' :
     obtain ⟨_, _, rfl⟩ := inv_workerExit hs
     exact inv8_frame (es := []) h (fun _ hk => hk) rfl rfl (by simp) (by simp)
   | cancel =>
-    obtain ⟨_, rfl⟩ := inv_cancel hs
-    exact inv8_frame (es := [Ev.cancelled]) h (fun _ hk => hk) rfl rfl rfl (by simp [Ev.isRet, Ev.isSkipInvalid])
+    obtain ⟨_, _, rfl⟩ := inv_cancel hs
+    exact inv8_frame (es := [Ev.cancelled _]) h (fun _ hk => hk) rfl rfl rfl (by simp [Ev.isRet, Ev.isSkipInvalid])
 
 end Sched
